@@ -14,7 +14,9 @@ class C06(Prop):
             "and StopAndWait at a random position of it (quick) or at every position (thorough); a quarter of the quick cases "
             "(and 6 corpus cases run first) are directed: the source plugin parks the consumption of ack k while it is in "
             "flight, record k+1 is acked by the engine, the stop is issued, the forced flush commits, then the plugin "
-            "resumes (k = 1..4, 4 topologies, both engines); two cases per run hold "
+            "resumes (k = 1..4, 4 topologies, both engines); an eighth (v2, plus 3 corpus cases) park a batch in unanswering "
+            "destinations, let a first StopAndWait with a 10-40 ms context deadline time out, issue a second StopAndWait while the "
+            "batch is still in flight, then let the destinations answer; two cases per run hold "
             "the store for longer than the 10 s source teardown budget. distinct = distinct input JSON; non-trivial = "
             "records were read and at least one was in flight or unacknowledged when the stop was called")
     trusted_base = [
